@@ -8,5 +8,7 @@ CONSTANTS
   ServeFails = TRUE
   DeferUnreport = FALSE
   LockedAdd = TRUE
+  Counting = TRUE
+  TrackKey = "pair"
 INVARIANTS CountersBalanced
 CHECK_DEADLOCK FALSE
